@@ -808,12 +808,21 @@ impl<RequireLeftInput, RequireRightInput> With<Join, JoinBuilder<WithInput, With
         let Join {
             name,
             operator,
-            schema: _,
+            schema,
             size: _,
             left,
             right,
         } = join;
-        let builder = self.name(name).operator(operator).left(left).right(right);
+        // Keep the field names of the join: the relations built on top of it refer to them
+        let mut left_names: Vec<String> = schema.iter().map(|f| f.name().to_string()).collect();
+        let right_names = left_names.split_off(left.schema().len().min(left_names.len()));
+        let builder = self
+            .name(name)
+            .operator(operator)
+            .left_names(left_names)
+            .right_names(right_names)
+            .left(left)
+            .right(right);
         builder
     }
 }
